@@ -344,6 +344,10 @@ func genCase(rt *rapid.T, disk bool, salt int) (*caseSpec, []string) {
 	g.paramSetMode(base, c.Fragment > 0, 8)
 	if disk {
 		// about a fifth of the disk cases start in a directory with a history
+		// a reader that spins on the next sequence number while the writer writes; the
+		// memory-mode twin of the same frames
+		c.Spin = rapid.IntRange(0, 5).Draw(rt, "spinningReader") == 0
+		c.Twin = rapid.IntRange(0, 3).Draw(rt, "memoryTwin") == 0
 		c.Earlier = rapid.SampledFrom([]string{"", "killed", "killed", "republished", "", "", "", "", "", "", "", "", "", "", "", ""}).Draw(rt, "earlierLife")
 	}
 	g.now = rapid.SampledFrom([]int64{0, 0, 1, 2999, 90000, 12345678, 1 << 31, 8000000000}).Draw(rt, "t0")
